@@ -69,6 +69,10 @@ Definition run_cors_one (O : oracles) (cfg : cors_cfg) (t : table) (req : reques
         (implb (al && negb pre) (any && Bool.eqb invoked routed_ok
                                  && Nat.eqb (List.length (impl_hvalues H_ACAllowOrigin acl)) 1));
       verdict "c19_cors_history_independent" (sx_bool (sx_nth 4 impl));
+      (* services with CORS filters of their own, asked concurrently: a sixth field, when present, says whether every
+         answer came from the filter of its own service *)
+      verdict "c08_concurrent_requests_answered_by_their_own_filter"
+              (match sx_list impl with [_; _; _; _; _; f] => sx_bool f | _ => true end);
       verdict "c09_computed_methods_are_routable"
         (implb (al && pre && any && match c_methods cfg with [] => true | _ => false end)
                (negb (Z.eqb probe 404) && negb (Z.eqb probe 405))) ],
@@ -324,9 +328,22 @@ Definition roots_matching (O : oracles) (t : table) (p : str) : nat :=
   List.length (filter (fun w => match jsr_match O (pe_toks (path_expression (s_root w))) p with
                                 | Some _ => true | None => false end) (t_services t)).
 
+Fixpoint drop_nth {A} (k : nat) (l : list A) : list A :=
+  match l, k with
+  | [], _ => []
+  | _ :: l', O => l'
+  | x :: l', S k' => x :: drop_nth k' l'
+  end.
+
 Definition run_allow (c impl : sexp) : sexp :=
   let O := sx_oracles (sx_nth 0 c) in
-  let t := sx_table (sx_nth 1 c) in
+  let t0 := sx_table (sx_nth 1 c) in
+  (* optionally a registration history: (k) = the k-th service was registered, the OPTIONS filter was asked, and the
+     service was removed; what counts is the table without it *)
+  let t := match sx_list (sx_nth 3 c) with
+           | [k] => {| t_router := t_router t0; t_services := drop_nth (sx_nat k) (t_services t0) |}
+           | _ => t0
+           end in
   let req := sx_request (sx_nth 2 c) in
   let probes := sx_list (sx_nth 0 impl) in
   let options := sx_nth 1 impl in
@@ -358,7 +375,8 @@ Definition run_allow (c impl : sexp) : sexp :=
               verdict "kf:K-C17-2" (unclean && match t_router t with Curly => true | Jsr311 => false end);
               verdict "kf:K-C17-3" (existsb (fun w => existsb (fun r => negb (forallb (fun b => b) (r_conds r))) (s_routes w))
                                             (t_services t));
-              verdict "single_root_and_clean" (negb multi && negb unclean) ] ].
+              verdict "single_root_and_clean" (negb multi && negb unclean);
+              verdict "service_removed_after_first_answer" (negb (Nat.eqb (List.length (sx_list (sx_nth 3 c))) 0)) ] ].
 
 (* ---- domain "twin" (C18): (oracles table request), impl = (obs under CurlyRouter, obs under RouterJSR311) ---- *)
 Definition class_of (x : routed) : string :=
@@ -948,14 +966,14 @@ Definition run_neg (c impl : sexp) : sexp :=
               else if negb wellformed_q then "malformed-q" else match accept with [] => "no-accept" | _ => "negotiated" end)%string in
   Lst [ Lst [of_bool refines];
         Lst [ verdict "c05_no_panic" (Z.eqb (sx_int (sx_nth 0 impl)) 0);
-              verdict "c05_same_representation_every_time" (implb scope same);
+              (* for EVERY request, also outside the premise and with unparsable q values (fix F10: no map order is left) *)
+              verdict "c05_same_representation_every_time" same;
               verdict "c05_type_is_produced_and_registered" (implb (scope && written) (mem ct0 produces && mem ct0 reg));
               verdict "c05_admitted_never_406" (implb (scope && admitted) written);
               verdict "c05_best_for_accept" (implb (scope && admitted)
                                                    (match possible with [k] => written && str_eqb ct0 k | _ => false end));
               verdict "c05_body_decodes" (implb written (forallb (fun d => Z.eqb d 1) i_dec));
-              (* outside the premise the answer may depend on map iteration order (C05's subject), so only inside it *)
-              verdict "c19_same_answers_with_tracing_flipped" (implb premise (sx_bool (sx_nth 4 impl))) ];
+              verdict "c19_same_answers_with_tracing_flipped" (sx_bool (sx_nth 4 impl)) ];
         A (L cls);
         Lst [ verdict "in_premise" scope; verdict "admitted" admitted;
               verdict "several_ranges" (Nat.ltb 1 (List.length (split comma accept)));
